@@ -681,7 +681,7 @@ func c05scenarios() []*c05scenario {
 	}
 	var out []*c05scenario
 	// S1: solo suffrage: every vote completes its stage point (cleanup after every vote)
-	out = append(out, &c05scenario{name: "solo", n: 1, th: 100, known: true, depth: [2]int{5, 7}, points: []c05sp{p1, p2, p3, p4},
+	out = append(out, &c05scenario{name: "solo", n: 1, th: 100, known: true, depth: [2]int{5, 8}, points: []c05sp{p1, p2, p3, p4},
 		events: []c05ev{
 			vote("n0", p1, "A", false, ""), vote("n0", p1, "A", true, ""),
 			vote("n0", p2, "A", false, ""),
@@ -692,7 +692,7 @@ func c05scenarios() []*c05scenario {
 			{kind: "setlast", p: p2, maj: true}, {kind: "setlast", p: p3, maj: true},
 		}})
 	// S2: two members, threshold 100: two votes complete a stage point; ballots carry embedded voteproofs
-	out = append(out, &c05scenario{name: "duo", n: 2, th: 100, known: true, depth: [2]int{5, 7}, points: []c05sp{p1, p2, p3},
+	out = append(out, &c05scenario{name: "duo", n: 2, th: 100, known: true, depth: [2]int{5, 8}, points: []c05sp{p1, p2, p3},
 		events: []c05ev{
 			vote("n0", p1, "A", false, ""), vote("n1", p1, "A", false, ""), vote("n1", p1, "B", false, ""),
 			vote("n0", p1, "A", true, ""), vote("n1", p1, "A", true, ""),
@@ -703,14 +703,14 @@ func c05scenarios() []*c05scenario {
 	// S3: three members, threshold 67: an INIT draw with a pending expel is held (hold timestamp in the record),
 	// ballots with embedded ACCEPT voteproofs give cheap cleanup cycles
 	q1, q2, q3 := P(34, 0, false), P(35, 0, false), P(36, 0, false)
-	out = append(out, &c05scenario{name: "hold", n: 3, th: 67, known: true, depth: [2]int{5, 7}, points: []c05sp{p1, q1, q2, q3},
+	out = append(out, &c05scenario{name: "hold", n: 3, th: 67, known: true, depth: [2]int{5, 8}, points: []c05sp{p1, q1, q2, q3},
 		events: []c05ev{
 			vote("n0", p1, "E", false, "acc:32", "n2/n0,n1"), vote("n1", p1, "B", false, "acc:32"), vote("n1", p1, "E", false, "acc:32", "n2/n0,n1"),
 			vote("n0", q1, "A", false, "acc:33"), vote("n0", q2, "A", false, "acc:34"), vote("n1", q3, "A", false, ""),
 			{kind: "timepass"}, {kind: "tick"}, {kind: "count"}, {kind: "missing", p: p1},
 		}})
 	// S4: suffrage not yet known: ballots are parked in the records and counted once it is known
-	out = append(out, &c05scenario{name: "unknown", n: 2, th: 100, known: false, depth: [2]int{5, 7}, points: []c05sp{p1, p2, p3},
+	out = append(out, &c05scenario{name: "unknown", n: 2, th: 100, known: false, depth: [2]int{5, 8}, points: []c05sp{p1, p2, p3},
 		events: []c05ev{
 			vote("n0", p1, "A", false, "acc:32"), vote("n1", p1, "A", false, "acc:32"), vote("x", p1, "A", false, "acc:32"),
 			vote("n0", p2, "A", false, "init:33.0"), vote("n1", p2, "A", false, "init:33.0"),
